@@ -36,17 +36,21 @@ W_LP, W_RP, W_NOT, W_OR, W_AND, W_PIPE = 0, 1, 2, 3, 4, 5
 SIZES = {}
 OP_WORD = {'(': W_LP, ')': W_RP, '!': W_NOT, '||': W_OR, '&&': W_AND, '|': W_PIPE}
 WORD_STR = {v: k for k, v in OP_WORD.items()}
-JUNK = {300: 'no-such-primitive', 301: '%junk', 302: '-x', 303: '&', 304: '||x'}
+JUNK = {300: 'no-such-primitive', 301: '%junk', 302: '-x', 303: '&', 304: '||x', 305: '&&&', 306: '|||'}
+# damaged operators that are valid symbol NAMES: only ever put in operator position (see [mutate]), where the parser does
+# not classify the word
+WORD_LIKE_OPS = {307: 'and', 308: 'or'}
+DAMAGED = {W_AND: [303, 305, 307, W_PIPE], W_OR: [W_PIPE, 306, 308, 303], W_PIPE: [W_OR, 303, 308, 306]}
 
 HOSTS = [
     dict(name='integer-matcher', mod='exactly_lib.impls.types.integer_matcher.parse_integer_matcher', vt='INTEGER_MATCHER',
-         matcher=True, leaves=['== 1', '!= 2', '< 3', '>= 2', 'constant true', 'constant false'],
+         matcher=True, leaves=['== 1', '!= 2', '< 3', '>= 2', 'constant true', 'constant false', '<= 2', '> 3'],
          syms=['== 71', '<= 72']),
     dict(name='line-matcher', mod='exactly_lib.impls.types.line_matcher.parse_line_matcher', vt='LINE_MATCHER',
          # (no leaf takes a TEXT-SOURCE: `equals X` would accept a following `-transformed-by ...` token as its own option,
          #  so a leaf would not be one word when another leaf is put next to it in the malformed stream)
          matcher=True, leaves=['line-num == 1', 'line-num > 1', 'contents is-empty', "contents matches ^a$", 'constant true',
-                               'constant false'],
+                               'constant false', 'line-num <= 2', 'line-num >= 3'],
          syms=['line-num == 71', 'line-num <= 72']),
     dict(name='text-matcher', mod='exactly_lib.impls.types.string_matcher.parse_string_matcher', vt='STRING_MATCHER',
          matcher=True, leaves=['is-empty', 'num-lines == 1', 'num-lines > 1', 'matches ^a', 'matches b', 'constant true',
@@ -240,7 +244,7 @@ def word_source(host, w):
         return host['leaves'][w - 100]
     if 200 <= w < 300:
         return SYM_NAMES[w - 200]
-    return JUNK[w]
+    return JUNK[w] if w in JUNK else WORD_LIKE_OPS[w]
 
 
 def to_source(rng, host, toks):
@@ -609,8 +613,24 @@ def gen_tables(ctx):
 # ---------------------------------------------------------------------------------------------
 # case generation
 # ---------------------------------------------------------------------------------------------
+def damage_operator(rng, host, toks):
+    """replace an infix operator that is NOT the first one by a damaged spelling (&, |, &&&, |||, and, or);
+    None if there is no such operator"""
+    idx = [i for i, t in enumerate(toks) if t[0] == 'w' and not t[1] and t[2] in levels_of(host)]
+    if len(idx) < 2:
+        return None
+    i = rng.choice(idx[1:])
+    toks = list(toks)
+    toks[i] = ('w', False, rng.choice(DAMAGED[toks[i][2]]))
+    return toks
+
+
 def mutate(rng, host, toks):
     """a malformed / arbitrary variant of a token sequence"""
+    if rng.chance(0.2):
+        t2 = damage_operator(rng, host, toks)
+        if t2 is not None:
+            return t2       # no further change: a word-like damaged operator must stay in operator position
     toks = list(toks)
     ops = levels_of(host) + ([W_NOT] if host['matcher'] else [])
     for _ in range(rng.randint(1, 2)):
@@ -672,7 +692,12 @@ class Case:
         obs = 'OErr' if self.obs[0] == 'err' else '(OOk %s %s)' % (c_expr(self.obs[1]), c_toks(self.obs[2]))
         evs = []
         for v in self.ev or []:
-            if v[0] == 'match':
+            if v[0] == 'filter':
+                evs.append('(VFilter %s %s)' % (
+                    clist(['(%s, %s)' % (clist(['(%s, %s)' % (cN(w), cbool(b)) for w, b in sorted(tab.items())]), cN(k))
+                           for tab, k in v[1]]) if v[1] else '(@nil (list (N * bool) * N))',
+                    clist([cN(x) for x in v[2]]) if v[2] else '(@nil N)'))
+            elif v[0] == 'match':
                 evs.append('(VMatch %s %s)' % (clist(['(%s, %s)' % (cN(w), cbool(b)) for w, b in sorted(v[1].items())]),
                                                c_trace(v[2])))
             else:
@@ -718,6 +743,37 @@ def observe(rng, hosts, c):
             text = ''.join(rng.choice(ALPHABET) for _ in range(rng.randint(0, 8)))
             out = p.transform(impl.str_source(text, hi.env)).contents().as_str
             c.ev.append(('trans', hi.leaf_tab, text, out, {'input': text, 'output': out}))
+    if c.hi in (0, 1) and not c.obs[2] and 999 not in leaves_of_expr(e) and (c.kind == 'filter' or rng.chance(0.5)):
+        v = filter_evaluation(rng, hosts, c.hi, e)
+        if v is not None:
+            c.ev.append(v)
+
+
+LINE_CONTENTS = ['a', '', 'b']
+
+
+def filter_evaluation(rng, hosts, hi_idx, e):
+    """the structure that was read, used as `filter E` (line matcher) / `filter line-num ( E )` (integer matcher) on a
+    small text: per line the truth of every leaf on that line, and the output"""
+    from exactly_lib.section_document.parse_source import ParseSource
+    hi, st = hosts[hi_idx], hosts[5]
+    host = HOSTS[hi_idx]
+    src = '( ' + src_of_expr(host, e) + ' )'
+    src = 'filter ' + (src if hi_idx == 1 else 'line-num ' + src)
+    tr = st.mod.parsers(False).full.parse(ParseSource(src)).resolve(hi.symbols).value_of_any_dependency(None).primitive(st.env)
+    lines = [rng.below(len(LINE_CONTENTS)) for _ in range(rng.randint(0, 5))]
+    text = ''.join(LINE_CONTENTS[k] + '\n' for k in lines)
+    out = tr.transform(impl.str_source(text, st.env)).contents().as_str
+    out_lines = out.split('\n')
+    if out_lines[-1] != '' or any(x not in LINE_CONTENTS for x in out_lines[:-1]):
+        out_ids = [999]
+    else:
+        out_ids = [LINE_CONTENTS.index(x) for x in out_lines[:-1]]
+    rows = []
+    for n, k in enumerate(lines, 1):
+        model = n if hi_idx == 0 else (n, LINE_CONTENTS[k])
+        rows.append(({w: bool(p.matches_w_trace(model).value) for w, p in hi.leaf_prim.items()}, k))
+    return ('filter', rows, out_ids, {'filter': src, 'text': text, 'output': out})
 
 
 def leaves_of_expr(x):
@@ -750,6 +806,9 @@ def load_corpus():
                     toks.append(('nl',))
                 elif t in OP_WORD:
                     toks.append(('w', quoted, OP_WORD[t]))
+                elif t[0] == 'J':
+                    assert int(t[1:]) in JUNK, t
+                    toks.append(('w', quoted, int(t[1:])))
                 else:
                     assert t[0] == 'L' and int(t[1:]) < len(HOSTS[c['host']]['leaves']), t
                     toks.append(('w', quoted, 100 + int(t[1:])))
@@ -792,6 +851,19 @@ def generate(ctx, res, hosts):
                     cases.append(new_case(hi, simple, must_cur, mutate(rng, host, toks), None, [], stream))
                 else:
                     cases.append(new_case(hi, simple, must_cur, toks, d, follow, stream))
+    # the value inside `filter` (which derives a line-number interval from the STRUCTURE): conjunctions / negated
+    # disjunctions of every pair of leaves, so that intervals meeting in exactly one line are well represented
+    for hi in (0, 1):
+        host = HOSTS[hi]
+        ids = list(range(100, 100 + len(host['leaves']))) + [200, 201]
+        pairs = [(a, b) for a in ids for b in ids]
+        if ctx.quick:
+            pairs = rng.sample(pairs, 50)
+        for a, b in pairs:
+            for e in (('I', W_AND, [('L', a), ('L', b)]), ('P', W_NOT, ('I', W_OR, [('P', W_NOT, ('L', a)), ('P', W_NOT, ('L', b))])),
+                      ('P', W_NOT, ('I', W_OR, [('L', a), ('L', b)]))):
+                d = decorate(rng, host, e, 0, 0.0, rng.choice([0.0, 0.3]))
+                cases.append(new_case(hi, False, False, render(d), d, [], 'filter'))
     for c in cases:
         observe(rng, hosts, c)
     # simple-expression contexts inside primitives of other types
